@@ -321,8 +321,14 @@ def stream_objective(ck: Check, impl: Impl) -> None:
         for plan in itertools.product([[2, -1], [-2, 1], [0, 0], [1, 2], [-1, -2], [2, 0], [0, 1], [2, 1], [-2, -1]],
                                       repeat=rounds):
             ll = 2 * rounds - 1
-            for cfg in {(1, 1, 1, 1, 0, 0), (1, ll, 1, ll, 0, ll), (1, ll, 1, ll, 1, ll), (ll, ll, 1, 1, ll, ll)}:
+            for cfg in sorted({(1, 1, 1, 1, 0, 0), (1, ll, 1, ll, 0, ll), (1, ll, 1, ll, 1, ll), (ll, ll, 1, 1, ll, ll)}):
                 todo.append(("exh2", 2, rounds, cfg, [list(r) for r in plan]))
+            # settings that break exactly one acceptance condition of the constructor (the real constructor
+            # decides; if it ever accepts one of them the oracle applies the property to that instance)
+            for cfg in ((0, ll, 1, ll, 0, ll), (1, 0, 1, ll, 0, ll), (1, ll + 1, 1, ll, 0, ll), (1, ll, 0, ll, 0, ll),
+                        (1, ll, 1, 0, 0, ll), (1, ll, 1, ll + 1, 0, ll), (1, ll, 1, ll, -1, ll),
+                        (1, ll, 1, ll, 1, 0), (1, ll, 1, ll, 0, ll + 1)):
+                todo.append(("exh2_nearvalid", 2, rounds, cfg, [list(r) for r in plan]))
     n_inst = 500 if ck.quick else 4000
     per_inst = 8 if ck.quick else 14
     for _ in range(n_inst):
